@@ -55,7 +55,7 @@ pub fn some_packet(rng: &mut Rng) -> Packet {
             Packet::Data { block_num: some_u16(rng), data: rng.bytes(n as usize) }
         }
         3 => Packet::Ack(some_u16(rng)),
-        4 => Packet::Error { code: ErrorCode::from_u16(rng.below(8) as u16).unwrap(), msg: some_string(rng) },
+        4 => Packet::Error { code: error_code(rng.below(8) as u16), msg: some_string(rng) },
         _ => Packet::Oack(some_opts(rng)),
     }
 }
